@@ -94,8 +94,11 @@ def gen_case(rng, uid):
         tun.append(t)
     via_robot = rng.random() < 0.2
     if via_robot:
-        owner = rng.choice(["component", "mode", "robot"])
-        instances = [{"name": f"o{uid}", "prefix": {"component": "components", "mode": "autonomous", "robot": None}[owner]}]
+        owner = rng.choice(["component", "component2", "mode", "robot"])
+        instances = [{"name": f"o{uid}", "prefix": {"component": "components", "component2": "components", "mode": "autonomous", "robot": None}[owner]}]
+        if owner == "component2":
+            # two components of one class on the same robot (`left: Shooter; right: Shooter`)
+            instances.append({"name": f"p{uid}", "prefix": "components"})
         if owner == "robot":
             instances[0]["name"] = "robot"
             # (all three annotation spellings are generated for the robot class too - see finding F10)
@@ -235,8 +238,11 @@ def run_case(acc, case):
                         else setup_tunables(o, inst["name"])
                     objs.append(o)
             else:
-                objs.append(bind_via_robot(case, cls))
+                r = bind_via_robot(case, cls)
+                objs.extend(r if isinstance(r, list) else [r])
                 acc.ev("via-magicrobot")
+                if isinstance(r, list):
+                    acc.ev("via-magicrobot-two-components-one-class")
         except Exception as e:  # noqa
             import traceback
             kinds = sorted({t["kind"] for t in tun})
@@ -368,6 +374,8 @@ def bind_via_robot(case, cls):
         body = {"createObjects": lambda self: None, "teleopPeriodic": lambda self: None}
         if owner == "component":
             body["__annotations__"] = {name: cls}
+        elif owner == "component2":
+            body["__annotations__"] = {name: cls, case["instances"][1]["name"]: cls}
         elif owner == "robot":
             pass
         elif owner == "mode":
@@ -390,6 +398,8 @@ def bind_via_robot(case, cls):
         robot.robotInit()
         if owner == "component":
             return getattr(robot, name)
+        if owner == "component2":
+            return [getattr(robot, name), getattr(robot, case["instances"][1]["name"])]
         if owner == "robot":
             return robot
         return robot._automodes.modes[name]
